@@ -16,7 +16,7 @@ ENGINE = 'E5'
 LEVEL = 'exploration'
 LEVEL_TEXT = (
     'Seeded histories of install (numbered, --run-name, --no-run-name), '
-    'reinstall, clean and manual removal of runN against the real '
+    'reinstall, clean (whole run or --rm DIR) and manual removal of runN against the real '
     'install/clean code and the real rsync binary, with injected rsync '
     'failures, OSErrors on mkdir/symlink and aborts between two file-system '
     'effects; invariants over the directory tree after every operation.')
@@ -31,7 +31,8 @@ RULE = (
     'unchanged; a new numbered run has a number greater than every existing '
     'runK and was not a number used before; after a successful numbered '
     'install runN points at the new run, and whenever runN exists it points '
-    'at an existing run and at the highest-numbered one. Distinct = distinct '
+    'at an existing run and at the highest-numbered one; a targeted clean '
+    '(--rm DIR) neither removes the run nor changes runN. Distinct = distinct '
     'operation history; non-trivial = at least 3 numbered installs succeeded '
     'and one fault or clean happened in between.')
 ASSUMPTIONS = ['single user, no concurrent installs']
@@ -41,7 +42,7 @@ TIERS = {
 }
 EXPECTED_PROBES = ['numbered_install_ok', 'rsync_failed', 'oserror_injected',
                    'aborted_mid_install', 'clean_latest', 'clean_middle',
-                   'runN_removed_by_hand', 'reinstall_ok']
+                   'runN_removed_by_hand', 'reinstall_ok', 'targeted_clean']
 
 
 def make_params(seed, tier):
@@ -67,9 +68,13 @@ def gen_ops(rng):
             elif f < 0.34:
                 fault = ['abort', rng.randint(1, 8)]
             ops.append([kind, fault, rng.randint(0, 99)])
-        elif r < 0.65:
+        elif r < 0.58:
             ops.append(['clean', rng.choice(['latest', 'oldest', 'random']),
                         rng.randint(0, 99)])
+        elif r < 0.65:
+            # targeted clean (cylc clean --rm DIR): the run stays installed
+            ops.append(['clean_rm', rng.choice(['latest', 'latest', 'random']),
+                        rng.randint(0, 99), rng.choice(['work', 'share', 'log'])])
         elif r < 0.78:
             ops.append(['reinstall', rng.choice(['latest', 'random']),
                         rng.randint(0, 99)])
@@ -342,6 +347,33 @@ def run(params):
                     except (CylcError, OSError) as exc:
                         outcome = ('error', str(exc)[:200])
                     after = runs()
+                    for n, fp in before.items():
+                        if n != pick and (n not in after or
+                                          fingerprint(after[n]) != fp):
+                            V('clean_touched_another_run', {
+                                'op_index': i, 'cleaned': pick, 'run': n})
+            elif kind == 'clean_rm':
+                rs = runs()
+                if rs:
+                    ks = sorted(rs)
+                    pick = ks[-1] if op[1] == 'latest' else ks[op[2] % len(ks)]
+                    os.makedirs(os.path.join(rs[pick], op[3], 'x'), exist_ok=True)
+                    rn0 = runN()
+                    probe('targeted_clean')
+                    try:
+                        cleanmod.clean(f'{name}/run{pick}', Path(rs[pick]),
+                                       {op[3]})
+                    except (CylcError, OSError) as exc:
+                        outcome = ('error', str(exc)[:200])
+                    after = runs()
+                    if pick not in after:
+                        V('targeted_clean_removed_the_run', {
+                            'op_index': i, 'run': pick, 'dir': op[3]})
+                    elif runN() != rn0:
+                        V('targeted_clean_changed_runN', {
+                            'op_index': i, 'run': pick, 'dir': op[3],
+                            'runN_before': rn0, 'runN_after': runN(),
+                            'runs': sorted(after)})
                     for n, fp in before.items():
                         if n != pick and (n not in after or
                                           fingerprint(after[n]) != fp):
